@@ -634,7 +634,9 @@ class Interp(object):
                     fv = FuncVal(node, Env(module=m), m, qn)
                     if "property" in decos:
                         return self.call_function(fv, [inst], {})
-                    if "classmethod" in decos or "staticmethod" in decos:
+                    if "staticmethod" in decos:
+                        return fv                 # a static method reached through an instance: the plain function
+                    if "classmethod" in decos:
                         raise OutOfSubset("classmethod access via instance")
                     bm = BoundMethod(inst, attr)
                     bm.func = fv
